@@ -53,6 +53,9 @@ func (k *keyedSession) payload(key string) proto.Message {
 	k.g.Density = 0.5
 	p := k.g.Message(newMsg(k.t.resource).Type())
 	stripTweens(p.ProtoReflect())
+	if k.singleItem {
+		capLists(p.ProtoReflect(), 1)
+	}
 	if key == "" {
 		p.ProtoReflect().Clear(p.ProtoReflect().Descriptor().Fields().ByName(protoreflect.Name(k.t.keyField)))
 	} else {
@@ -210,6 +213,7 @@ func (k *keyedSession) update(it *item) {
 	s.mon.Count("update-ok")
 	prev := it.cur
 	it.cur = proto.Clone(got)
+	s.noteWrite(p, prev, it.cur)
 	for i, st := range s.streams {
 		if st.closed || k.streamOf[i] != it {
 			continue
@@ -324,6 +328,7 @@ func runKeyedSession(t triple, sid sessionID, mon *lib.Monitor) (lines, verdicts
 	s.g.MaxDepth = 2
 	cl, model := t.Row.New()
 	s.client = reflect.ValueOf(cl)
+	s.singleItem = sid.Seq%2 == 1
 	k := &keyedSession{session: s, streamOf: map[int]*item{}}
 	if model != nil {
 		k.model = reflect.ValueOf(model)
@@ -367,7 +372,11 @@ func runKeyedSession(t triple, sid sessionID, mon *lib.Monitor) (lines, verdicts
 		case x < 10:
 			k.update(ls[s.r.Intn(len(ls))])
 		case x < 13:
-			k.get(ls[s.r.Intn(len(ls))], s.randMask(t.resource, 40, true))
+			it, m := ls[s.r.Intn(len(ls))], s.randMask(t.resource, 40, true)
+			k.get(it, m)
+			if m != nil && !s.failed {
+				k.get(it, nil) // a read does not change the item
+			}
 		case x < 16:
 			if s.openCount() < 3 {
 				k.pull(ls[s.r.Intn(len(ls))])
